@@ -6,8 +6,8 @@ from . import files as Fm
 from . import shapes as S
 
 
-def make_files(chk, runner, shapes, rng, n, maxrecs=8, pages=(1, 2, 1000), name="files"):
-    ws = Fm.gen_workloads(rng, shapes, n, maxrecs=maxrecs, pages=pages)
+def make_files(chk, runner, shapes, rng, n, maxrecs=8, pages=(1, 2, 1000), name="files", minrecs=0, codec_cycle=False):
+    ws = Fm.gen_workloads(rng, shapes, n, maxrecs=maxrecs, pages=pages, minrecs=minrecs, codec_cycle=codec_cycle)
     for w in ws:
         if not w.ops or w.ops[-1] != "W":
             w.ops.append("W")
